@@ -166,7 +166,7 @@ class SSH_Socket(ReadBuf, WriteBuf):
                 s.connect(addr)
                 self.__sock = s
                 return None
-        except socket.error as e:
+        except (socket.error, UnicodeError) as e:  # UnicodeError: what getaddrinfo() raises for a host name that cannot be IDNA-encoded (empty or over-long label); it is a resolution failure like any other.
             err = e
             self._close_socket(s)
         if err is None:
